@@ -82,6 +82,29 @@ def MROMerge(input_seqs):
     raise MROError(input_seqs) from e
 
 
+def CheckDuplicateBases(bases, seqs, generic_name="typing.Generic"):
+  """Raise MROError if a direct base is listed twice, which Python refuses.
+
+  Args:
+    bases: The direct bases of a class, with type parameters stripped.
+    seqs: The sequences to report in the MROError.
+    generic_name: Name of typing.Generic, whose repetition is reported by the
+      check for generic base classes instead.
+
+  Raises:
+    MROError: If a base other than a special class (e.g. Any) occurs twice.
+  """
+  seen = set()
+  for base in bases:
+    if getattr(base, "SINGLETON", False):
+      continue
+    if getattr(base, "full_name", getattr(base, "name", None)) == generic_name:
+      continue
+    if base in seen:
+      raise MROError(seqs)
+    seen.add(base)
+
+
 def _GetClass(t, lookup_ast):
   if t.cls:
     return t.cls
@@ -109,11 +132,9 @@ def _ComputeMRO(t, mros, lookup_ast):
         else:
           base_mro = _ComputeMRO(base, mros, lookup_ast)
         base_mros.append(base_mro)
-      mros[t] = tuple(
-          MROMerge(
-              [[t]] + base_mros + [_Degenerify(_GetClass(t, lookup_ast).bases)]
-          )
-      )
+      bases = _Degenerify(_GetClass(t, lookup_ast).bases)
+      CheckDuplicateBases(bases, [[t]] + base_mros + [bases])
+      mros[t] = tuple(MROMerge([[t]] + base_mros + [bases]))
     return mros[t]
   elif isinstance(t, pytd.GenericType):
     return _ComputeMRO(t.base_type, mros, lookup_ast)
@@ -127,4 +148,6 @@ def GetBasesInMRO(cls, lookup_ast=None):
   base_mros = []
   for p in cls.bases:
     base_mros.append(_ComputeMRO(p, mros, lookup_ast))
-  return tuple(MROMerge(base_mros + [_Degenerify(cls.bases)]))
+  bases = _Degenerify(cls.bases)
+  CheckDuplicateBases(bases, base_mros + [bases])
+  return tuple(MROMerge(base_mros + [bases]))
